@@ -68,8 +68,37 @@ Fixpoint regroup (fuel : nat) (g : nat) (o : list (list dcmd)) : list (list dcmd
            | _ => concat (firstn g o) :: regroup f g (skipn g o)
            end
   end.
+(* ---- 501 :: g :: signals: the director runs as the runtime runs it - `loop { wait_io_sub(.., rx.resubscribe()) }` on
+   a signal channel of capacity 16 - and the signals are published g at a time: a group of at most 16 is processed in
+   order; a larger group makes the receiver lag, wait_io_sub returns and the new subscription starts behind everything
+   queued, so the whole group is lost - but the verdicts elected before SURVIVE the re-entry ---- *)
+Fixpoint drun_st (s : dstate) (h : list dsignal) : dstate * list (list dcmd) :=
+  match h with
+  | [] => (s, [])
+  | sg :: t => let '(s', out) := dstep s sg in let '(s'', outs) := drun_st s' t in (s'', out :: outs)
+  end.
+(* the groups alternate in size: 3, g, 3, g, ... (small groups are processed, a group of more than 16 lags) *)
+Fixpoint drun_groups (fuel : nat) (s : dstate) (small : bool) (g : nat) (h : list dsignal) : list (list dcmd) :=
+  match fuel with
+  | O => []
+  | S f => match h with
+           | [] => []
+           | _ => let n := if small then 3%nat else g in
+                  let grp := firstn n h in
+                  if Nat.leb (length grp) 16
+                  then let '(s', outs) := drun_st s grp in concat outs :: drun_groups f s' (negb small) g (skipn n h)
+                  else [] :: drun_groups f s (negb small) g (skipn n h)
+           end
+  end.
+Definition c09l_model (g : Z) (h : list dsignal) : list (list dcmd) := drun_groups (length h) dstate0 true (Z.to_nat g) h.
+
 Definition c09x_run (l : list Z) : list Z :=
   match l with
+  | 501 :: g :: r =>
+      if g <=? 0 then bad_case else
+      match dec_dsignals (length r) r with
+      | Some h => enc_douts (c09l_model g h)
+      | None => bad_case end
   | 500 :: g :: r =>
       if g <=? 0 then bad_case else
       match dec_dsignals (length r) r with
@@ -78,6 +107,11 @@ Definition c09x_run (l : list Z) : list Z :=
   | _ => c09_run l end.
 Definition c09x_check (l o : list Z) : bool :=
   match l with
+  | 501 :: g :: r =>
+      match dec_dsignals (length r) r with
+      | Some h => implb (c09_wf h && (0 <? g))
+                    (if list_eq_dec Z.eq_dec o (enc_douts (c09l_model g h)) then true else false)
+      | None => false end
   | 500 :: g :: r =>
       match dec_dsignals (length r) r with
       | Some h => implb (c09_wf h && (0 <? g))
@@ -85,4 +119,4 @@ Definition c09x_check (l o : list Z) : bool :=
       | None => false end
   | _ => c09_check l o end.
 Definition c09x_nontriv (l o : list Z) : bool :=
-  match l with 500 :: _ :: r => c09_nontriv r o | _ => c09_nontriv l o end.
+  match l with 500 :: _ :: r | 501 :: _ :: r => c09_nontriv r o | _ => c09_nontriv l o end.
